@@ -498,7 +498,8 @@ def meta_from_lines(lines):
 REG = dict(category="exploration",
            text="Runtime monitor of the evdns reply path: ~4.8e3 (quick) / 2.5e5 (thorough) cases of 1-3 grammar-generated and mutated DNS replies "
                 "(wrong ID/QR/opcode/rcode/TC, question echo variants, compression pointers forward/backward/looping/into the header, "
-                "truncation, count and rdlength lies, 0-3 CNAMEs, other classes/types, SOA, arbitrary TCP segmentation, two frames per stream) "
+                "truncation, count and rdlength lies, 0-3 CNAMEs, other classes/types, SOA, arbitrary TCP segmentation, two frames per stream; 5% are small "
+                "single-record replies whose PTR/CNAME target expands to 250..257 characters through a compression pointer, i.e. at the buffer limits) "
                 "are delivered to a pending A/AAAA/PTR request; an independent RFC 1035 decoder decides from the bytes sent whether the "
                 "callback may carry a result and exactly which addresses/PTR name/CNAME/TTL bound; ASan+UBSan with exact-size datagrams, "
                 "allocation census after evdns_base_free, LSan. Held-on-observed, not a proof.",
